@@ -254,7 +254,7 @@ type c13World struct {
 	cur     [2]connEnds
 	hist    [2]hist[connectiontypes.ConnectionEnd]
 	sent    []sentRec
-	sentVer map[int][]pver // index in sent -> counterparty versions of a MsgConnectionOpenTry
+	sentVer map[int][]pver                           // index in sent -> counterparty versions of a MsgConnectionOpenTry
 	saved   map[string]connectiontypes.ConnectionEnd // "chain/id" -> end before the first not-yet-undone plant
 }
 
